@@ -260,6 +260,7 @@ CHECKS["C15"] = dict(
 
 # ---- additions made while strengthening the checks against independently seeded changes ----
 _EXTRA = {
+    "C14": " Family twin: layouts with two sensors 2^-10..2^-30 pitches apart (weights at a conditioning-aware tolerance, their total at 1e-9); family session: histories of requests on two live spatial objects (boundary as list / fresh array / one array overwritten in place, refused requests in between), the last request of every history judged on its own arguments.",
     "C01": " Windows of 32768/32769/40000 samples are judged with a sparse explicit-DFT reference (FFT length must cover the window); azimuth sets include a non-ascending one; FFT requests with a norm keyword, integer-typed centre frequencies and common factors of 1e-18/1e18 are included. Cases with three windows of different length in one call (longest first / middle / last; the reference tapers every window over its own length) are included.",
     "C02": " Integer and float32 spectra must give the float64 result; pairs of FFT grids with equal size but different spacing run inside one root (state carried between grids). Centre vectors with the same length and end points as the vector before them ('warp') are included.",
     "C03": " Descending/unsorted centre-frequency sets and pool members scaled by 1e9/1e-9 are included. The 'alone' references are computed in processes without history (engine/pristine.py), so process-global state cannot make joint and alone runs wrong alike. A fourth time step 1/100.4 s (same whole sampling rate and sample counts as 0.01 s) is in the pool.",
@@ -272,12 +273,12 @@ _EXTRA = {
     "C11": " Touch mode, manual re-acceptance and compound mask edits (same total, other split), single-frequency curve sets, a finely spaced grid and zero-amplitude windows are included. 'Near' roots (ppm-scaled windows), the alias spelling 'log-normal', returned arrays overwritten in place, and a model of manual edits (only the addressed entry of the addressed azimuth may change) are included. Duplicate azimuth values, 0 together with 180, swaps of which window of ONE azimuth is rejected, and refused range updates are included.",
     "C12": " All four (distribution_mc, distribution_fn) pairs, kwargs that change the selected peak, rejections with a bounded range and non-increasing azimuth sets are included; touch mode. Azimuths a few hundredths of a degree apart, a two-peak set for which the peak options select the lower peak at the default range, and options dicts re-used by the caller are included. A rejection that is legitimately refused half-way through the azimuths (then written) is included.",
     "C10": " window_length_in_seconds=None (unsplit) and windows of more than two million sample intervals are included. Family history: unrelated objects are filtered with other filter orders, split and detrended first, and the windows are compared with those of a process without history; family mixed-dt: lists of recordings with time steps a, b, a.",
-    "C17": " Amplitude scales 1e-9, 1e-12 and 1e9 are included (every tolerance is relative; the diffuse-field ratio must be scale invariant).",
+    "C17": " Amplitude scales 1e-9, 1e-12 and 1e9 are included (every tolerance is relative; the diffuse-field ratio must be scale invariant). Parts C/D: use / edit / use (and use / edit / use / edit / use) histories on ONE settings object for process() and preprocess(), edits by assignment, item assignment or load(), optionally a refused call in between; the last use is judged by the fresh-object oracles.",
     "C13": " Amplitude factor 1e-8 and window pairs with equal sample count but different time step are included. Amplitude factors 1e-20/1e20, lists of windows of different length (family 'unequal') and a manual rejection on one azimuth after the call (the other azimuths keep the selection) are included. Family history: every sequence of up to 3 (quick) / 4 (thorough) calls over 15 operations, some of them refused (too long STA/LTA, a too-short window at each list position, a non-existent component), on objects with fresh or pre-set masks: a refused call must leave the attached object's masks as they were.",
     "C15": " Loads into objects that already hold other (richer) content are checked for every class. Objects constructed from values that the caller, another settings object or a sibling still holds must not share them (family 'construct-from'). Sequences of length 1 and 0 are in the value menus; family inplace-edit: every list/dict/array reachable from an object (found by inspection, 'attrs' included) is edited in place with every operation of a per-type menu while bystander objects of all classes made before and after must not change.",
     "C16": " sigma_f = 0 and pairs of grids with equal length, end points and f0 sample (same explicit range, one process) are included. A peak of prominence 1e-7 (flank kind 'shelf') is included; verbose calls pass the range as a list, which must afterwards still hold what the caller wrote. Ranges given as (high, low), ranges whose limit is next to the peak, and a grid / standard-deviation curves that put the peaks of mean x sigma and mean / sigma one sample inside and outside either edge of the criterion-iv band are included.",
     "C18": " Touch mode: the recording is checkpointed to disk after every operation. Orientations of NumPy scalar types, returned time vectors shifted in place by the caller, and trims 1e5 time steps into records of 270000-400001 samples are included. The same TimeSeries object handed to the constructor for several components (all five partition patterns; such recordings are also search roots) and pairs of fresh objects trimmed back to back with identical arguments (lengths x time steps, both kinds) are included.",
-    "C19": " Mixed --distribution_mc/--distribution_fn runs and two high sampling rates 5.9e-6 s apart (short windows) are included. A settings variant with a nested fft_settings dict is included; the quick file set mixes sampling rates that share one padded FFT length.",
+    "C19": " Mixed --distribution_mc/--distribution_fn runs and two high sampling rates 5.9e-6 s apart (short windows) are included. A settings variant with a nested fft_settings dict is included; the quick file set mixes sampling rates that share one padded FFT length. PSD-style preprocessing settings files (differentiate, filter, explicit FFT length) are in the settings alphabet.",
     "C20": " The default call draws the live object of the history, touch mode draws it after every operation, manual re-acceptance and compound mask edits are in the menu. Figures interrupted half-way (RuntimeError and KeyboardInterrupt injected inside the drawing), the meshes handed to contourf / plot_surface (every azimuth's row is that azimuth's curve; azimuths stored out of order) and same-azimuth swaps of the rejected window between two drawings of one object are included.",
 }
 for _k, _v in _EXTRA.items():
